@@ -31,8 +31,8 @@
 // a zone-dependent method on such a value (AddDate, Date, Clock, Year, Month, Day, Hour, Minute,
 // Second, Weekday, YearDay, ISOWeek, Format, AppendFormat, String, GoString, Zone, ZoneBounds,
 // Location, IsDST, Marshal*, In(non-UTC)); the value leaving the function (returned, passed to a call,
-// stored in a field / element / literal, captured) before a UTC conversion; any reference to
-// time.Local, Time.Local(), time.LoadLocation, time.FixedZone-free shapes are not needed.  Unix, UnixNano,
+// stored in a field / element / literal) before a UTC conversion; any reference to time.Local,
+// Time.Local(), time.LoadLocation; time.Unix* / Parse / Date used as a function value.  Unix, UnixNano,
 // UnixMilli, UnixMicro, Sub, Add, Before, After, Equal, Compare, IsZero, Nanosecond are zone-independent.
 // (Truncate / Round work on the absolute time, not on the presentation: they keep the zone and the
 // value stays followed.)
